@@ -6,7 +6,7 @@ from . import kdcases
 
 ID = "C01kd"
 LEVEL = "proof"
-LEAN_MODULES = ["DracoProps.C01Kd", "DracoProps.C10Kd", "DracoProps.C18Kd"]
+LEAN_MODULES = ["DracoProps.C01Kd", "DracoProps.C10Kd", "DracoProps.C18Kd", "DracoProps.C03Kd"]
 RULE = kdcases.__doc__
 THEOREM_BACKED = "see evidence.coverage.theorems"
 CORRESPONDENCE_ONLY = "the attribute layer (KdTreeAttributesDecoder) and the entropy-coded byte layout are tied by correspondence"
